@@ -70,22 +70,22 @@ Qed.
 Lemma all_str_onmsg g n : forall l, all_str n (map (on_msg g) l) = all_str n l.
 Proof.
   unfold all_str. induction l as [|x l IH]; simpl; [reflexivity|]. rewrite IH.
-  destruct x as [k [y|p|s|im]]; reflexivity.
+  destruct x as [k [y|p|s|im|fx|fx]]; reflexivity.
 Qed.
 Lemma all_msg_onmsg g n : forall l, all_msg n (map (on_msg g) l) = map g (all_msg n l).
 Proof.
   unfold all_msg. induction l as [|x l IH]; simpl; [reflexivity|]. rewrite IH.
-  destruct x as [k [y|p|s|im]]; try reflexivity. unfold on_msg. simpl. destruct (k =? n); reflexivity.
+  destruct x as [k [y|p|s|im|fx|fx]]; try reflexivity. unfold on_msg. simpl. destruct (k =? n); reflexivity.
 Qed.
 Lemma last_var_onmsg g n l : last_var n (map (on_msg g) l) = last_var n l.
 Proof.
   unfold last_var. generalize (@None Z). induction l as [|x l IH]; intros acc; simpl; [reflexivity|].
-  rewrite IH. destruct x as [k [y|p|s|im]]; reflexivity.
+  rewrite IH. destruct x as [k [y|p|s|im|fx|fx]]; reflexivity.
 Qed.
 Lemma last_str_onmsg g n l : last_str n (map (on_msg g) l) = last_str n l.
 Proof.
   unfold last_str. generalize (@None bytes). induction l as [|x l IH]; intros acc; simpl; [reflexivity|].
-  rewrite IH. destruct x as [k [y|p|s|im]]; reflexivity.
+  rewrite IH. destruct x as [k [y|p|s|im|fx|fx]]; reflexivity.
 Qed.
 
 Lemma all_str_canon n m : known_num n = true -> all_str n (canon_header m) = all_str n m.
